@@ -3,7 +3,10 @@ import io, itertools
 import vlib, domlib as D
 from . import domcommon as DC
 
-THEOREMS = ['see props/C09.v']
+THEOREMS = ['C09_every_history: WF h -> Idx top h -> ops_ok -> ops_keep_top -> WF (run h ops) /\\ Idx top (run h ops) (induction over the history)',
+            'C09_elements_by_type: under Idx, getElementsByType = exactly the attached elements of the type, each once',
+            'C09_style_by_name_sound / C09_style_by_name_complete (the latter along histories with unique registered style names)',
+            'C09_step, C09_walk_complete (pigeonhole: the bounded subtree walk reaches every descendant), C09_start (non-vacuity)']
 RULE = ('lock-step histories on a document: appendChild / insertBefore / removeChild / addElement / addText / addCDATA over element, text, '
         'CDATA and style:style nodes (subtrees added as a whole, removed, re-added, moved), interleaved with xml(), save(), contentxml(), '
         'stylesxml(), metaxml() calls; after EVERY step doc.getElementsByType(f) for seven element types, element.getElementsByType on '
